@@ -3,5 +3,5 @@
 cd "$(dirname "$0")"
 T=${1:-quick}
 for p in $(python3 -c "import json;print(' '.join(c['property_id'] for c in json.load(open('MANIFEST.json'))['checks']))"); do
-  /usr/bin/time -f "$p rc=%x %es %MKB" ./check $p --tier $T 2>&1 | tail -2 | tr '\n' ' '; echo
+  /usr/bin/time -f "$p rc=%x %es %MKB" ./check $p --tier $T 2>&1 | grep -E 'INCONCLUSIVE|VIOLATION|ENCODING|tier=|rc=' | cut -c1-300 | tr '\n' ' '; echo
 done
